@@ -5,7 +5,9 @@
                            UnboundInstanceCache._get_key (the key of the allowlist cache, as a chain of
                            projections PFunc / PWrapped / PCode applied to the callable)
   malt/impl/conversion.py  _ALLOWLIST_CACHE, is_in_allowlist_cache, cache_allowlisted (shape)
-  malt/impl/api.py         PyToPy.get_caching_key, the _call_unconverted exits of converted_call
+  malt/impl/api.py         PyToPy.get_caching_key, the _call_unconverted exits of converted_call,
+                           _convert_actual (the entry funnel: FDirect / FMemo ks ss) and statelessness of the
+                           other functions on the request path
       -> coq/Generated/C10_gen.v   (definitions only)
 
 What is extracted is the *instruction skeleton* of the cache-access code, as a
@@ -29,6 +31,7 @@ program of MV.Cache.Machine.instr:
 Anything else raises Untranslatable (tie broken).
 """
 import ast
+import collections
 import os
 
 
@@ -622,6 +625,178 @@ def _allowlist_cache_shape(repo, ctree, atree):
     return chain
 
 
+_REQUEST_PATH = ('to_graph', 'convert', 'converted_call', '_call_unconverted', '_fall_back_unconverted',
+                 'autograph_artifact', 'is_autograph_artifact')
+
+
+def _entry_funnel(atree, ttree, key_src, key_chain):
+    """api._convert_actual -- the one funnel through which to_graph, the convert
+    wrappers and (recursive) converted_call obtain a converted function -- as a
+    value of MV.Cache.Entry.funnel:
+
+      FDirect      guards (if ...: raise), R[, m, sm] = _TRANSPILER.transform(entity, ctx), asserts,
+                   `R.attr = <name unpacked from the transform result>`, return R
+      FMemo ks ss  the same around a memo of the RESULT: `if M.has(entity, X): return M[entity][X]` before and
+                   `M[entity][X] = R` after the transform, M a module-level cache.UnboundInstanceCache() (ks = the
+                   function object) or cache.CodeObjectCache() (ks = the generated key source), X = ctx.options
+                   (SubOptions) / ctx.options.<field> (SubOptionsField) / a constant (SubConstant)
+
+    and the requirement that nothing else on the request path of api.py keeps
+    state: the other entry functions use no module-level mutable name, the
+    transpiler instance is used by the funnel only, GenericTranspiler.transform
+    just dispatches to transform_function.  Fail closed on anything else."""
+    fns = dict((n.name, n) for n in atree.body if isinstance(n, ast.FunctionDef))
+    ca = fns.get('_convert_actual')
+    if ca is None:
+        raise Untranslatable('untranslatable: api.py: function _convert_actual not found')
+    a = ca.args
+    if a.vararg or a.kwarg or a.kwonlyargs or a.posonlyargs or a.defaults or len(a.args) != 2 or ca.decorator_list:
+        _fail('api.py', ca, '_convert_actual signature / decorators')
+    ent, ctx = [x.arg for x in a.args]
+    # module-level bindings of api.py
+    bound = collections.Counter()
+    values = {}
+    for n in ast.walk(atree):
+        if isinstance(n, ast.Name) and isinstance(n.ctx, (ast.Store, ast.Del)):
+            bound[n.id] += 1
+    for n in atree.body:
+        if isinstance(n, ast.Assign) and len(n.targets) == 1 and isinstance(n.targets[0], ast.Name):
+            values[n.targets[0].id] = n.value
+    for n in ast.walk(atree):
+        if isinstance(n, (ast.Global, ast.Nonlocal)) and any(x in values for x in n.names):
+            _fail('api.py', n, 'global/nonlocal rebinding of a module-level name')
+
+    def module_const(name, texts):
+        return name in values and bound[name] == 1 and ast.unparse(values[name]) in texts
+    transpilers = [k for k in values if module_const(k, ('PyToPy()',))]
+    if transpilers != ['_TRANSPILER']:
+        _fail('api.py', atree, 'the transpiler instance is not bound once as `_TRANSPILER = PyToPy()`')
+
+    def is_ent(e):
+        return _is_name(e, ent)
+
+    def subkey(e, node):
+        if isinstance(e, ast.Attribute) and _is_name(e.value, ctx) and e.attr == 'options':
+            return 'SubOptions'
+        if isinstance(e, ast.Attribute) and isinstance(e.value, ast.Attribute) and _is_name(e.value.value, ctx) \
+                and e.value.attr == 'options':
+            return 'SubOptionsField'
+        if isinstance(e, ast.Constant):
+            return 'SubConstant'
+        _fail('api.py', node, '_convert_actual: memo sub-key `%s` is not ctx.options / a field of it / a constant' % ast.unparse(e)[:50])
+
+    def memo_of(name, node):
+        if module_const(name, ('cache.UnboundInstanceCache()',)):
+            if key_chain != ['PFunc']:
+                _fail('api.py', node, 'memo keyed by UnboundInstanceCache whose key is not the function object')
+            return 'KeyEntity'
+        if module_const(name, ('cache.CodeObjectCache()',)):
+            return key_src
+        _fail('api.py', node, '_convert_actual uses `%s`, which is not a module-level cache.UnboundInstanceCache() / '
+              'cache.CodeObjectCache() bound once' % name)
+    memo = {'read': None, 'write': None}
+    R = None
+    unpacked = []
+    returned = False
+    body = _nodoc(ca.body)
+    for idx, st in enumerate(body):
+        if returned:
+            _fail('api.py', st, '_convert_actual: statement after return')
+        if _is_logging_stmt(st):
+            continue
+        # guard: if <test over entity only>: raise
+        if isinstance(st, ast.If) and not st.orelse and all(isinstance(x, ast.Raise) for x in st.body) \
+                and all(n.id in (ent, 'hasattr', 'callable', 'isinstance', 'inspect', 'types') for n in ast.walk(st.test) if isinstance(n, ast.Name)):
+            continue
+        if isinstance(st, ast.Assert):
+            if any(isinstance(n, (ast.Call,)) and not (_is_name(n.func, 'hasattr') or _is_name(n.func, 'isinstance')) for n in ast.walk(st)):
+                _fail('api.py', st, '_convert_actual: assert with a call')
+            continue
+        # memo read
+        if isinstance(st, ast.If) and not st.orelse and len(st.body) == 1 and isinstance(st.body[0], ast.Return) \
+                and isinstance(st.test, ast.Call) and isinstance(st.test.func, ast.Attribute) and st.test.func.attr == 'has' \
+                and isinstance(st.test.func.value, ast.Name) and R is None and memo['read'] is None:
+            m = st.test.func.value.id
+            t, r = st.test, st.body[0].value
+            if not (len(t.args) == 2 and not t.keywords and is_ent(t.args[0])):
+                _fail('api.py', st, '_convert_actual: memo probed with something else than (entity, sub-key)')
+            if not (isinstance(r, ast.Subscript) and isinstance(r.value, ast.Subscript) and _is_name(r.value.value, m)
+                    and is_ent(r.value.slice) and ast.dump(r.slice) == ast.dump(t.args[1])):
+                _fail('api.py', st, '_convert_actual: memo hit does not return M[entity][sub-key]')
+            memo['read'] = (m, memo_of(m, st), subkey(t.args[1], st), ast.dump(t.args[1]))
+            continue
+        # the transform
+        if isinstance(st, ast.Assign) and len(st.targets) == 1 and isinstance(st.value, ast.Call) \
+                and isinstance(st.value.func, ast.Attribute) and _is_name(st.value.func.value, '_TRANSPILER'):
+            c = st.value
+            if R is not None or c.func.attr != 'transform' or c.keywords or len(c.args) != 2 \
+                    or not is_ent(c.args[0]) or not _is_name(c.args[1], ctx):
+                _fail('api.py', st, '_convert_actual: not exactly one `_TRANSPILER.transform(%s, %s)`' % (ent, ctx))
+            t = st.targets[0]
+            if isinstance(t, ast.Name):
+                R = t.id
+            elif isinstance(t, ast.Tuple) and t.elts and all(isinstance(x, ast.Name) for x in t.elts):
+                R = t.elts[0].id
+                unpacked = [x.id for x in t.elts[1:]]
+            else:
+                _fail('api.py', st, '_convert_actual: result of transform is not bound to names')
+            if R in (ent, ctx) or set(unpacked) & {ent, ctx, R}:
+                _fail('api.py', st, '_convert_actual: transform result rebinds a parameter')
+            continue
+        # R.attr = <unpacked name>
+        if isinstance(st, ast.Assign) and len(st.targets) == 1 and isinstance(st.targets[0], ast.Attribute) \
+                and R is not None and _is_name(st.targets[0].value, R) and isinstance(st.value, ast.Name) \
+                and st.value.id in unpacked:
+            continue
+        # memo write
+        if isinstance(st, ast.Assign) and len(st.targets) == 1 and isinstance(st.targets[0], ast.Subscript) \
+                and isinstance(st.targets[0].value, ast.Subscript) and isinstance(st.targets[0].value.value, ast.Name) \
+                and R is not None and memo['write'] is None:
+            t = st.targets[0]
+            m = t.value.value.id
+            if not (is_ent(t.value.slice) and _is_name(st.value, R)):
+                _fail('api.py', st, '_convert_actual: memo written with something else than M[entity][sub-key] = result')
+            memo['write'] = (m, memo_of(m, st), subkey(t.slice, st), ast.dump(t.slice))
+            continue
+        if isinstance(st, ast.Return):
+            if not (R is not None and _is_name(st.value, R) and idx == len(body) - 1):
+                _fail('api.py', st, '_convert_actual: return shape / position')
+            returned = True
+            continue
+        _fail('api.py', st, '_convert_actual: unrecognised statement: ' + ast.unparse(st).split('\n')[0][:80])
+    if not returned or R is None:
+        _fail('api.py', ca, '_convert_actual does not end in `return <result of _TRANSPILER.transform>`')
+    if (memo['read'] is None) != (memo['write'] is None) or (memo['read'] and memo['read'] != memo['write']):
+        _fail('api.py', ca, '_convert_actual: memo read and memo write do not match')
+    # the transpiler instance is used by the funnel only; the funnel is called with two positional arguments
+    inside = set(id(n) for n in ast.walk(ca))
+    for n in ast.walk(atree):
+        if isinstance(n, ast.Name) and n.id == '_TRANSPILER' and isinstance(n.ctx, ast.Load) and id(n) not in inside:
+            _fail('api.py', n, '_TRANSPILER is used outside _convert_actual')
+        if isinstance(n, ast.Call) and _is_name(n.func, '_convert_actual') and (len(n.args) != 2 or n.keywords):
+            _fail('api.py', n, '_convert_actual is not called with (entity, program_ctx)')
+        if isinstance(n, ast.Name) and n.id == '_convert_actual' and isinstance(n.ctx, ast.Store):
+            _fail('api.py', n, '_convert_actual is rebound')
+    for d in atree.body:
+        if isinstance(d, ast.FunctionDef) and d.name == '_convert_actual' and d is not ca:
+            _fail('api.py', d, '_convert_actual defined twice')
+    # nothing else on the request path keeps state
+    _require_stateless(atree, 'api.py', _REQUEST_PATH)
+    # transpiler.py: transform only dispatches
+    gt = _find_class(ttree, 'GenericTranspiler', 'transpiler.py')
+    tr = _find_method(gt, 'transform', 'transpiler.py')
+    tb = _nodoc(tr.body)
+    if [x.arg for x in tr.args.args] != ['self', 'obj', 'user_context'] or tr.decorator_list or not tb or \
+            ast.unparse(tb[0]) != 'if inspect.isfunction(obj) or inspect.ismethod(obj):\n    return self.transform_function(obj, user_context)' \
+            or not all(isinstance(x, ast.Raise) for x in tb[1:]):
+        _fail('transpiler.py', tr, 'GenericTranspiler.transform is not a plain dispatch to transform_function(obj, user_context)')
+    if _find_method(_find_class(ttree, 'PyToPy', 'transpiler.py'), 'transform', 'transpiler.py', required=False) is not None:
+        _fail('transpiler.py', tr, 'PyToPy overrides transform')
+    if memo['read'] is None:
+        return 'FDirect'
+    return 'FMemo %s %s' % (memo['read'][1], memo['read'][2])
+
+
 def translate(repo):
     # ---- transpiler.py
     path = os.path.join(repo, 'malt', 'pyct', 'transpiler.py')
@@ -742,6 +917,7 @@ def translate(repo):
 
     exits = _allowlist_exits(atree)
     key_chain = _allowlist_cache_shape(repo, ctree, atree)
+    funnel = _entry_funnel(atree, tree, key_src, key_chain)
     # purity of the two functions that produce cache sub-keys
     _require_pure(ck, 'api.py', {'converter'})
     path = os.path.join(repo, 'malt', 'core', 'converter.py')
@@ -760,7 +936,7 @@ def translate(repo):
            '   malt/pyct/cache.py and malt/impl/api.py -- do not edit *)',
            'From Coq Require Import List.',
            'Import ListNotations.',
-           'Require Import MV.Cache.Machine MV.Cache.KeySrc MV.Cache.Allowlist.',
+           'Require Import MV.Cache.Machine MV.Cache.KeySrc MV.Cache.Allowlist MV.Cache.Entry.',
            '(* PyToPy.transform_function *)',
            'Definition transform_function_prog : prog :=',
            '  [%s].' % '; '.join(prog),
@@ -782,7 +958,11 @@ def translate(repo):
            '   (guard depends on the calling context, writes the allowlist cache) *)',
            'Definition allowlist_exits : exits :=',
            '  [' + ';\n   '.join('(%s, %s) (* %s *)' % ('true' if d else 'false', 'true' if v else 'false', w.replace('*)', '* )').replace('(*', '( *').replace('"', "'"))
-                               for d, v, w in exits) + '].']
+                               for d, v, w in exits) + '].',
+           '(* api._convert_actual, the funnel of to_graph / convert wrappers / converted_call; the other entry functions',
+           '   of api.py use no module-level mutable state and GenericTranspiler.transform only dispatches (checked by',
+           '   the translator) *)',
+           'Definition entry_funnel : funnel := %s.' % funnel]
     return '\n'.join(out) + '\n'
 
 
